@@ -253,13 +253,25 @@ func ZZVerifC16TwoTries() {
 	buf := bufferio.NewBuffer()
 	ctx := gio.NewIOContext(outer, gio.NewIO(gio.IOParams{In: gio.NewInput(strings.NewReader("")), Out: bufferio.NewBufferOutput(buf), Err: bufferio.NewBufferOutput(buf), CWD: cwd}))
 	wantS, wantF, wantY := 0, 0, 0
-	for _, name := range []string{"t", "u"} {
+	// the second block may (wrongly) reuse the name of the first: it is
+	// refused, loudly, and leaves nothing pending in the surrounding scope
+	sameName := nd.Bool("same-name")
+	for n, name := range []string{"t", "u"} {
+		if sameName {
+			name = "t"
+		}
 		fails := nd.Bool("body-fails")
 		args.SetValue("name", name)
 		if fails {
 			args.SetValue("body", "body:fail")
 		} else {
 			args.SetValue("body", "body:ok")
+		}
+		if sameName && n == 1 {
+			nd.Assert(Try(a, ctx) != nil, "C16/twotries-duplicate-name-refused")
+			// the wait below returns: the refused block handed its task back
+			outer.Wait()
+			break
 		}
 		nd.Assert(Try(a, ctx) == nil, "C16/twotries-accepted")
 		// the second block starts when the first one is completely finished
@@ -282,10 +294,73 @@ func ZZVerifC16TwoTries() {
 		mgr.Wait()
 	}
 	nd.Quiesce()
+	if sameName {
+		nd.Assert(log.count("begin:body") == 1, "C16/twotries-refused-block-runs-nothing")
+		nd.Reach("C16/twotries-end")
+		return
+	}
 	nd.Assert(log.count("begin:body") == 2, "C16/twotries-both-bodies-run")
 	nd.Assert(log.count("begin:success") == wantS, "C16/twotries-success-handlers")
 	nd.Assert(log.count("begin:fail") == wantF, "C16/twotries-fail-handlers")
 	nd.Assert(log.count("begin:finally") == wantY, "C16/twotries-finally-handlers")
 	nd.Assert(len(outer.Errors()) == 0, "C16/twotries-outer-scope-not-failed")
 	nd.Reach("C16/twotries-end")
+}
+
+// ZZVerifC16Parallel: two try blocks run AT THE SAME TIME in two surrounding
+// scopes of one application (as two pipeline tasks that each contain a try
+// block do): both are accepted, each runs its body and its finally handler
+// once, neither surrounding scope is failed, and the two blocks share no
+// unsynchronised state (data races are reported).
+func ZZVerifC16Parallel() {
+	nd.Schedule(nd.Param("PP", 0))
+	nd.Races()
+	log := &zzLog{}
+	var r pipservices.Runner
+	boxes := &zzBoxes{self: &zzSelf{log: log, runner: func() pipservices.Runner { return r }}}
+	nsUnit := namespaces.NewUnit()
+	tUnit := tasks.NewUnit(tasks.UnitDeps{NamespacesUnit: nsUnit})
+	r = runner.NewRunner(runner.Deps{SandboxesManager: boxes, TasksUnit: tUnit, SharedMutex: mutex.NewSharedMutex()})
+	dp := dependency.NewProvider("dependency")
+	nd.Assume(dp.Set("PipRunner", pipservices.Runner(r)) == nil)
+	nd.Assume(dp.Set("PipNamespacesUnit", pipservices.NamespacesUnit(nsUnit)) == nil)
+	nd.Assume(dp.Set("PipTasksUnit", pipservices.TasksUnit(tUnit)) == nil)
+	a := zzApp{dp: dp}
+	// the application resolved its dependencies during start-up, long before
+	// two commands run side by side (the provider itself promises nothing
+	// about a concurrent FIRST resolution, C10)
+	_, gerr := dp.Get("PipRunner")
+	nd.Assume(gerr == nil)
+	var outers [2]app.Scope
+	var accepted [2]bool
+	var wg sync.WaitGroup
+	for i, name := range []string{"t", "u"} {
+		args := datascope.New(map[interface{}]interface{}{})
+		args.SetValue("name", name)
+		args.SetValue("body", "body:ok")
+		args.SetValue("finally", "finally:ok")
+		outer := scope.New(scope.Params{Name: "outer" + name, Injector: datascope.NewInjector("command", args)})
+		outers[i] = outer
+		cwd, _ := memfs.NewFilespace()
+		buf := bufferio.NewBuffer()
+		ctx := gio.NewIOContext(outer, gio.NewIO(gio.IOParams{In: gio.NewInput(strings.NewReader("")), Out: bufferio.NewBufferOutput(buf), Err: bufferio.NewBufferOutput(buf), CWD: cwd}))
+		wg.Add(1)
+		go func(i int) {
+			defer wg.Done()
+			accepted[i] = Try(a, ctx) == nil
+			outers[i].Wait()
+		}(i)
+	}
+	wg.Wait()
+	for i := range outers {
+		if mgr, merr := tUnit.FromScope(outers[i]); merr == nil {
+			mgr.Wait()
+		}
+	}
+	nd.Quiesce()
+	nd.Assert(accepted[0] && accepted[1], "C16/parallel-accepted")
+	nd.Assert(log.count("begin:body") == 2, "C16/parallel-both-bodies-run")
+	nd.Assert(log.count("begin:finally") == 2, "C16/parallel-finally-handlers")
+	nd.Assert(len(outers[0].Errors()) == 0 && len(outers[1].Errors()) == 0, "C16/parallel-outer-scopes-not-failed")
+	nd.Reach("C16/parallel-end")
 }
